@@ -399,6 +399,9 @@ SPECIAL_UNITS = [
     "int g1(int x) { goto l; { int y = x; l: return y + 1; } }\nint g2(int x) { if (x) goto end; x++; end: ; return x; }\nvoid g3(void) { l1: goto l1; }\n",
     # nested short-circuit and conditional operators in every position
     "int s1(int a, int b, int c) { return (a && b) || (c ? a || b : b && (c || a)); }\nint s2(int a, int b) { return !(a && b) ? (a ? b : !b) : a || b ? 1 : 2; }\nint s3(int a) { return a ? 1 : a ? 2 : a ? 3 : 4; }\n",
+    # functions called main with other return types (only `int main` gets an implicit return value), falling off the end
+    "void main(void) { }\n", "void main(int c, char **v) { if (c) return; }\n", "double main(void) { }\n", "struct M { long a, b, c; };\nstruct M main(void) { }\n", "char *main(void) { }\n",
+    "int main(void) { }\n", "long main(void) { for (;;) ; }\n", "static void helper(void) { }\nvoid main(void) { helper(); }\n",
     # the target's va_list as a member of aggregates passed and returned by value
     "struct VS { int k; __builtin_va_list ap; };\nstruct VS vid(struct VS a) { return a; }\nunion VU { __builtin_va_list ap; long l; };\nunion VU vud(union VU u) { return u; }\nstruct VA { __builtin_va_list aps[2]; char c; } vav;\nlong vsz = sizeof(struct VS) + sizeof(union VU) + sizeof vav;\n",
     # recursive and mutually referring aggregate types in parameters and returns
